@@ -1,14 +1,14 @@
 import os
 ID = 'C17'
-LEVEL = 'exploration'
-CONTRACT_MODULES = []
-CONE = []
-ORACLE_MODULES = ['rt.oracles_io']
+LEVEL = 'proof'
+CONTRACT_MODULES = ['contracts.quadtree']
+CONE = ['csep.core.regions._create_tile_fix_len', 'csep.core.regions._create_tile', 'csep.core.regions.QuadtreeGrid2D._find_location']
+ORACLE_MODULES = ['rt.oracles_io', 'rt.oracles_contracts']
 BOUNDED = os.path.exists(os.path.join(os.path.dirname(__file__), '..', 'rt', 'bounded_C17.py'))
-FLOAT_MODEL = 'n/a (concrete executions)'
-TRUSTED = ['the oracles in rt/ compute the expected outcome from the property statement, independently of the code under test', 'pyvc engine, z3 5.1']
+FLOAT_MODEL = 'R; tile edges are abstract reals constrained by the mercantile partition contract'
+TRUSTED = ['mercantile.quadkey_to_tile / bounds: the four children of a non-empty tile are non-empty half-open rectangles that share its outer edges and one common mid-line each way (assumed contract; division by 2^z is exact so shared edges are identical floats)', 'quadkey strings are modelled as abstract tiles: quadk + digit = child, len(quadk) = depth', 'the oracles in rt/ compute the expected outcome from the property statement, independently of the code under test', 'pyvc engine, z3 5.1']
 ASSUMPTIONS = ['the functions of this property are outside the deductive reach of the engine in this round (generators, file readers, recursion over tiles, whole-test pipelines): every clause is decided by the bounded run-time contract only; see DESIGN.md section 10']
-EXPLANATION = 'single-resolution grids zoom 1..6/8, catalog-driven refinement, prefix-free quadkey sets: disjointness, coverage, unique containing cell, threshold criterion, area sum - run-time contract'
-TECHNIQUE = 'bounded stand-in: run-time form of the contracts on the real code (small-scope enumeration + directed cases), labelled bounded, nothing counted as proved'
-LEVEL_TEXT = 'exploration: bounded run-time contract on the real code; no clause of this property is claimed as proved'
+EXPLANATION = 'deductive: recursion contracts + point location; bounded: single-resolution grids zoom 1..6/8, catalog-driven refinement, prefix-free quadkey sets: disjointness, coverage, unique containing cell, threshold criterion, area sum - run-time contract'
+TECHNIQUE = 'contracts on the real recursive functions (ghost set of appended keys, leaf function, measure), assumed mercantile partition contract, z3; bounded stand-in: run-time form of the contracts on the real code (small-scope enumeration + directed cases), labelled bounded, nothing counted as proved'
+LEVEL_TEXT = 'proof (structural induction, recursive calls through the function's own contract at a smaller measure): the leaves appended by _create_tile_fix_len / _create_tile partition the starting tile (coverage + pairwise disjointness by a ghost leaf function), have the prescribed length, record their own event count, exceed the threshold only at the maximum zoom, and a tile at or below the threshold is never split; _find_location returns the first (for disjoint cells: the unique) cell whose half-open bounds contain the point, or the empty array. Assembly of the four roots, areas and the class constructors are bounded only'
 LEVEL_NOTE = 'bounded only; oracle independence trusted'
